@@ -95,9 +95,11 @@ func HarnessC03_chain() {
 	if vTier() > 0 {
 		depth = 1 + ndChoice(4)
 	}
-	// thorough: every extension for every file up to depth 3; the depth-4
-	// chains use the rotating choice of two
+	// thorough: every extension for every file up to depth 2; at depth 3
+	// for the name chain (the $parent-wired twin rotates through two); the
+	// depth-4 chains use the rotating choice of two throughout
 	c03Rotate = depth == 4
+	rotateTwin := depth >= 3
 	names := []string{"a", "a.b", "a.b.c", "a.b.c.d"}[:depth]
 	renamed := []string{"x", "y", "z", "q"}[:depth]
 	sameExt := false
@@ -119,7 +121,9 @@ func HarnessC03_chain() {
 		}
 		top = names[i] + "." + e
 		vfsAddFile(top, c)
+		c03Rotate = c03Rotate || rotateTwin
 		e2 := c03Ext()
+		c03Rotate = depth == 4
 		if sameExt {
 			e2 = "yaml"
 		}
